@@ -74,10 +74,43 @@ def run_do(case, drv):
 
 
 # ----------------------------------------------------------------------------- queries
+def bn_with_edges(rng, base, edges):
+    """a positive binary network on the node set of `base` with exactly the given edges"""
+    n = len(base["nodes"])
+    cpds = []
+    for v in range(n):
+        ps = [u for u, w in edges if w == v]
+        rng.shuffle(ps)
+        cols = [gen.rand_dist(rng, 2, "generic") for _ in range(2 ** len(ps))]
+        cpds.append({"child": v, "parents": ps, "table": [[rs(cols[j][i]) for j in range(len(cols))] for i in range(2)]})
+    out = dict(base)
+    out.update(edges=[list(e) for e in sorted(edges)], cpds=cpds, card=[2] * n, shape="butterfly",
+               labels=[gen.state_labels(rng, 2, "str") for _ in range(n)])
+    return out
+
+
 def gen_query(rng, tier):
     for _ in range(30):
         case = gen.rand_bn(rng, nmin=2, nmax=5, maxcard=3, name_kind=rng.choice(["str", "str", "int0"]), mincard=2, label_kind=rng.choice(["int", "str", "permint"]),
                            positive=rng.random() < .8)
+        r_ = rng.random()
+        if r_ < .15:
+            # butterfly Z1 -> Z2 <- W -> Y, Z1 -> X, Z2 -> X, X -> Y (relabelled): the parents of X interact through a collider
+            perm = list(range(5))
+            rng.shuffle(perm)
+            z1, z2, w, x_, y_ = perm
+            base = gen.rand_bn(rng, nmin=5, nmax=5, maxcard=2, name_kind="str", mincard=2, positive=True, shape="isolated")
+            bf = [(z1, z2), (w, z2), (w, y_), (z1, x_), (z2, x_), (x_, y_)]
+            case = bn_with_edges(rng, base, bf)
+            case["X"] = [[x_, rng.randrange(2)]]
+            case["Y"] = [y_]
+            case["algo"] = rng.choice(["ve", "ve", "bp"])
+            case["kind"] = "butterfly"
+            case["use_sets"] = False
+            case["warm"] = False
+            return case
+        if r_ < .35:
+            case = gen.rand_bn(rng, nmin=5, nmax=6, maxcard=2, name_kind="str", mincard=2, positive=True, shape="gnp_dense", max_parents=3)
         n = len(case["nodes"])
         kind = rng.choice(["single", "single", "multi", "parent_child"])
         if kind == "single":
@@ -169,16 +202,16 @@ _D = {}
 
 
 def enum_criteria(tier):
-    for n in (2, 3, 4) + ((5,) if tier == "thorough" else ()):
+    for n in (2, 3, 4, 5):
         if n not in _D:
             _D[n] = gen.all_dags(n)
         for k, edges in enumerate(_D[n]):
-            if n == 5 and k % 6:
+            if n == 5 and k % (6 if tier == "thorough" else 97):
                 continue
             yield {"n": n, "edges": [list(e) for e in edges]}
             # the same graph with one (for 4+ nodes sometimes two) variables declared latent: enumerated sets must avoid them, and
             # paths THROUGH them still count for the criteria
-            if n >= 3 and edges:
+            if n >= 3 and edges and (n < 5 or tier == "thorough"):
                 for l in range(n):
                     if n <= 3 or (k + l) % 2 == 0:
                         yield {"n": n, "edges": [list(e) for e in edges], "latents": [l]}
@@ -211,6 +244,16 @@ def run_criteria(case, drv):
                     crit = drv.call("causal_criteria", g=mg, x=x, y=y, zs=list(Z))
                     got = bool(ci.is_valid_backdoor_adjustment_set(names[x], names[y], [names[z] for z in Z]))
                     nchecks += 1
+                    if not lat:
+                        # for candidate sets of non-descendants of the treatment the complete adjustment criterion (proper back-door
+                        # graph) coincides with the back-door criterion
+                        try:
+                            got2 = bool(ci.is_valid_adjustment_set([names[x]], [names[y]], [names[z] for z in Z]))
+                        except Exception as e:
+                            return fail(f"is_valid_adjustment_set raised {type(e).__name__}: {e}")
+                        if got2 != crit["backdoor"]:
+                            return fail(f"is_valid_adjustment_set([{names[x]}],[{names[y]}],{[names[z] for z in Z]}) = {got2}; "
+                                        f"back-door criterion on paths: {crit['backdoor']} (edges {edges})")
                     if got != crit["backdoor"]:
                         return fail(f"is_valid_backdoor_adjustment_set({names[x]},{names[y]},{[names[z] for z in Z]}) = {got}; "
                                     f"back-door criterion on paths: {crit['backdoor']} (edges {edges})")
@@ -258,6 +301,8 @@ def run_criteria(case, drv):
                     return fail(f"get_minimal_adjustment_set({names[x]},{names[y]}) raised {type(e).__name__}: {e}")
                 if ms is not None:
                     zs = [names.index(z) for z in ms]
+                    if set(zs) & desc:
+                        return fail(f"get_minimal_adjustment_set({names[x]},{names[y]}) = {set(ms)} contains a descendant of the treatment (edges {edges})")
                     if not drv.call("causal_criteria", g=mg, x=x, y=y, zs=zs)["blocks"]:
                         return fail(f"get_minimal_adjustment_set({names[x]},{names[y]}) = {set(ms)} leaves a back-door path open (edges {edges})")
     return ok(nontrivial=bool(edges), n=n, checks=min(nchecks // 10 * 10, 100), latents=len(lat))
